@@ -988,6 +988,14 @@ impl<'r> Gen<'r> {
     }
 
     fn actual(&mut self, allow_usage: bool) -> String {
+        if allow_usage && self.o.strings_comments && self.r.chance(1, 14) {
+            // a comment inside the argument (also a // comment in an argument list that spans lines)
+            return match self.r.below(3) {
+                0 => format!("{} /* {} */ + {}", self.fresh("a"), self.fresh("c"), self.fresh("a")),
+                1 => format!("{} // {}\n + {}", self.fresh("a"), self.fresh("c"), self.fresh("a")),
+                _ => format!("// {}\n {}", self.fresh("c"), self.fresh("a")),
+            };
+        }
         let k = self.r.below(100);
         match if !allow_usage && k > 92 { 0 } else { k } {
             0..=34 => self.fresh("a"),
